@@ -66,6 +66,7 @@ type arrayRun struct {
 	splits int
 	merges int
 	maxFan int
+	tall   bool // thousands of tiny elements at the smallest slab size, then long runs of tail removals (height 3-4, index-slab rebalancing)
 	deep   bool // many small elements: index slabs with >= 32 children (binary-search routing), height 3
 }
 
@@ -105,7 +106,7 @@ func (r *arrayRun) newVal() aval {
 		return aval{id: -id, v: v, sz: sz}
 	}
 	pick := rng.Pick(30, 12, 18, 8, 10, 10, 12)
-	if r.deep && !rng.Chance(3) {
+	if (r.deep && !rng.Chance(3)) || r.tall {
 		pick = 0
 	}
 	switch pick {
@@ -247,6 +248,9 @@ func (r *arrayRun) wantDump() int64 {
 	every := 16
 	if r.deep {
 		every = 96
+	}
+	if r.tall {
+		every = 768
 	}
 	if len(r.shadow) <= 48 || r.step%every == 0 {
 		return 1
@@ -685,6 +689,10 @@ func cmdArray(a Args) {
 		if deep {
 			T = []uint32{256, 512, 1024}[hr.Intn(3)]
 		}
+		tall := h%20 == 14
+		if tall {
+			T, deep = 256, false
+		}
 		atree.VerifSetThreshold(T)
 		base := NewLogBase()
 		st := newStorage(base)
@@ -693,7 +701,7 @@ func cmdArray(a Args) {
 		ti := uint64(40 + hr.Intn(3))
 		arr, err := atree.NewArray(rec, addr, testutils.NewSimpleTypeInfo(ti))
 		must(err)
-		r := &arrayRun{rep: rep, tr: tr, hist: h, tag: tag, T: T, rng: hr, base: base, st: st, rec: rec, addr: addr, arr: arr, ti: ti, deep: deep}
+		r := &arrayRun{rep: rep, tr: tr, hist: h, tag: tag, T: T, rng: hr, base: base, st: st, rec: rec, addr: addr, arr: arr, ti: ti, deep: deep, tall: tall}
 		rec.Log = rec.Log[:0]
 		tr.Hist(tag, uint64(T), arr.SlabID().IndexAsUint64(), ti)
 		steps := a.Steps/2 + hr.Intn(a.Steps)
@@ -712,6 +720,32 @@ func cmdArray(a Args) {
 					r.viol("panic in implementation", fmt.Sprint(p))
 				}
 			}()
+			if tall {
+				// grow by appends, then remove mostly from the tail (sometimes the front) until empty
+				grow := 5000 + hr.Intn(6000)
+				for k := 0; k < grow && !r.failed; k++ {
+					r.doMut(4, 0)
+					if k%512 == 511 {
+						r.verify()
+					}
+				}
+				front := hr.Chance(20)
+				for k := 0; len(r.shadow) > 0 && !r.failed; k++ {
+					n := uint64(len(r.shadow))
+					switch {
+					case hr.Chance(2):
+						r.doMut(5, uint64(hr.Intn(int(n))))
+					case front:
+						r.doMut(5, 0)
+					default:
+						r.doMut(5, n-1)
+					}
+					if k%256 == 255 {
+						r.verify()
+					}
+				}
+				steps = 0
+			}
 			phase := 0 // 0 grow, 1 churn, 2 shrink, 3 regrow
 			sawMeta, sawBack := false, false
 			for k := 0; k < steps && !r.failed; k++ {
@@ -823,7 +857,7 @@ func cmdArray(a Args) {
 				} else if sawMeta {
 					sawBack = true
 				}
-				if (k%8 == 7 && !deep) || len(r.shadow) < 40 || k%64 == 63 {
+				if (k%8 == 7 && !deep && !tall) || len(r.shadow) < 40 || k%64 == 63 {
 					r.verify()
 				}
 				if k%97 == 96 {
